@@ -4,6 +4,8 @@ package c13
 import (
 	"fmt"
 	"go/ast"
+	"go/token"
+	"hash/fnv"
 	"go/types"
 	"math/rand"
 	"path/filepath"
@@ -317,6 +319,24 @@ func checkPackage(res *core.Result, u *gengotypes.Universe, p gengotypes.Package
 				}
 				fail("locate", "LocateInPackage", "LocateInPackage(pos in %s) = %s", fn, gp)
 			}
+			// every position of the file belongs to the file: the header before the package clause, build constraints,
+			// the package doc, comments after the last declaration, the last byte (seeded change C13-l)
+			for _, wp := range filePositions(p.FileSet(), f) {
+				var g2 gengotypes.Package
+				if pk, pv, _ := core.Guard(func() { g2 = u.LocateInPackage(wp.pos) }); pk {
+					fail("locate", "LocateInPackage panics at "+wp.what, "LocateInPackage(%s of %s) panicked: %v", wp.what, fn, pv)
+					break
+				}
+				if g2 != p {
+					gp := "<nil>"
+					if g2 != nil {
+						gp = g2.Pkg().Path()
+					}
+					fail("locate", "LocateInPackage at "+wp.what, "LocateInPackage(%s of %s, offset %d) = %s", wp.what, fn, p.FileSet().Position(wp.pos).Offset, gp)
+				}
+				res.Inc("file_positions_located")
+				res.Inc("file_positions_" + wp.what)
+			}
 			if d := filepath.Dir(fn); srcDir != d {
 				fail("sourcedir", "SourceDir", "SourceDir() = %q, files live in %q", srcDir, d)
 			}
@@ -324,6 +344,66 @@ func checkPackage(res *core.Result, u *gengotypes.Universe, p gengotypes.Package
 		}
 	}
 	return st
+}
+
+type whatPos struct {
+	what string
+	pos  token.Pos
+}
+
+// filePositions lists positions that all lie inside f's file: first and last byte, the package clause, every comment
+// group (start and last byte), every declaration (start and last byte) and a few offsets derived from the file name.
+// Files with //line directives are left to the package-clause probe only (Position() is redirected there).
+func filePositions(fset *token.FileSet, f *ast.File) []whatPos {
+	tf := fset.File(f.FileStart)
+	if tf == nil || tf.Size() == 0 {
+		return nil
+	}
+	for _, cg := range f.Comments {
+		for _, c := range cg.List {
+			if strings.HasPrefix(c.Text, "//line ") || strings.HasPrefix(c.Text, "/*line ") {
+				return nil
+			}
+		}
+	}
+	base, size := token.Pos(tf.Base()), tf.Size()
+	in := func(p token.Pos) bool { return p >= base && p < base+token.Pos(size) }
+	seen := map[token.Pos]bool{}
+	var out []whatPos
+	add := func(what string, p token.Pos) {
+		if in(p) && !seen[p] {
+			seen[p] = true
+			out = append(out, whatPos{what, p})
+		}
+	}
+	add("first-byte", base)
+	add("last-byte", base+token.Pos(size)-1)
+	add("package-name", f.Name.Pos())
+	for _, cg := range f.Comments {
+		what := "comment-between-decls"
+		switch {
+		case cg.End() <= f.Package:
+			what = "comment-before-package-clause"
+		case len(f.Decls) > 0 && cg.Pos() >= f.Decls[len(f.Decls)-1].End():
+			what = "comment-after-last-decl"
+		case len(f.Decls) == 0:
+			what = "comment-after-last-decl"
+		}
+		add(what, cg.Pos())
+		add(what, cg.End()-1)
+	}
+	for _, d := range f.Decls {
+		add("decl", d.Pos())
+		add("decl", d.End()-1)
+	}
+	h := fnv.New32a()
+	h.Write([]byte(tf.Name()))
+	x := h.Sum32()
+	for i := 0; i < 6; i++ {
+		x = x*1664525 + 1013904223
+		add("pseudo-random-offset", base+token.Pos(int(x>>8)%size))
+	}
+	return out
 }
 
 func closure(u *gengotypes.Universe, roots []string) []gengotypes.Package {
